@@ -82,6 +82,40 @@ def twin(case, ol):
     return dict(case, ops=ops)
 
 
+def container_valued_case(rng):
+    """definitions whose VALUE is a container (numpy arrays, lists): members of such values are locations without an
+    expression of their own - assigning them a plain value must propagate also while frozen.  Outside the integer
+    domain of the model: judged by the oracles (rejected / accepted calls, unfrozen twin)."""
+    R = lambda *ks: ["c"] + [["i", k] for k in ks]
+    arr = lambda: "\x02arr:" + json.dumps([rng.randint(-5, 5) for _ in range(3)])
+    store = [["c", {"kind": "dict", "root": rng.choice(["ref", "refattr", "env"]),
+                    "items": [["u", arr()], ["v", arr()], ["w", "\x02list:[1, 2]"], ["x", "\x02list:[3]"], ["q", arr()], ["r", 0], ["s", 0], ["t", "\x02list:[1, 2, 3]"]]}]]
+    defs = [["set", R("q"), ["expr", ["bin", "+", ["ref", R("u")], ["ref", R("v")]]]],            # array-valued
+            ["set", R("t"), ["expr", ["bin", "+", ["ref", R("w")], ["ref", R("x")]]]],            # list-valued (concatenation)
+            ["set", R("r"), ["expr", ["bin", "*", ["ref", R("q", 0)], ["const", 2]]]],            # reads a member of a defined value
+            ["set", R("s"), ["expr", ["bin", "+", ["ref", R("t", 0)], ["ref", R("u", 1)]]]]]
+    rng.shuffle(defs)
+    ops = defs[: rng.randint(2, 4)]
+    frozen = False
+    for _ in range(rng.randint(4, 10)):
+        k = rng.random()
+        if k < 0.25:
+            frozen = not frozen if rng.random() < 0.8 else frozen
+            ops.append(["freeze"] if frozen else ["unfreeze"])
+        elif k < 0.65:      # a member of a container value (defined or plain)
+            ops.append(["set", R(rng.choice("uvq"), rng.choice([0, 1, 2])), ["plain", rng.randint(-9, 9)]])
+        elif k < 0.75:
+            ops.append(["set", R(rng.choice("wt"), 0), ["plain", rng.randint(-9, 9)]])
+        elif k < 0.87:
+            ops.append(["set", R(rng.choice("uv")), ["plain", arr()]])
+        else:
+            ops.append(rng.choice(defs))
+    for op in ops:
+        if op[0] == "set" and len(op) == 3:
+            op.append(rng.choice(mc.ROUTES))
+    return {"store": store, "ops": ops}
+
+
 def run(ctx):
     ctx.rule = ("random manager histories with frozen windows at random positions containing every kind of API call (assign value/expression, "
                 "in-place, register, unregister, load, refresh, verify, cleanup), several windows per history, unbalanced freeze/unfreeze calls "
@@ -90,6 +124,7 @@ def run(ctx):
     ctx.scale_if_changed()
     proof_ok = vlib.standard_proof_part(ctx, "props/C17.v", extra_targets=["run/RunManager.vo", "proofs/TasksSrc.vo", "proofs/TasksSrcData.vo", "proofs/TasksSrcRefresh.vo"], translators=["tasks"])
     cases = [mc.gen_history(ctx.rng, ["frozen", "frozen", "windows"][i % 3], nops=ctx.rng.randint(6, 18)) for i in range(ctx.pick(260, 4000))]
+    cases += [container_valued_case(ctx.rng) for _ in range(ctx.pick(80, 1500))]
     obs = mc.run_impl_cases(cases)
     mism = mc.model_compare(ctx, cases, obs, "c17")
     fails = oracle(cases, obs)
